@@ -97,6 +97,14 @@ def exec_job(job):
             eff = -1
         elif latt:
             D = np.array(job["D"], dtype=float) if job.get("D") else None
+            if D is not None:
+                # a caller-supplied distance matrix is typed by the caller (integer ring distances, a
+                # float32 array ...): drawn from the job's own seed/script, lossless casts only
+                dd = random.Random(repr((job.get("seed"), job.get("script"), job["R0"]))).choice(
+                    ["float64", "float64", "int64", "int32", "float32", "F"])
+                Dt = np.asfortranarray(D) if dd == "F" else D.astype(dd)
+                if np.array_equal(Dt.astype(float), D):
+                    D = Dt
             out, Rrp, ind_rp, eff = f(Rarg, itr, D=D, seed=r)
             rec["Rrp"] = encode.mat_int(np.array(Rrp, dtype=float) / scale)
             rec["ind_rp"] = [int(x) + 1 for x in ind_rp]
